@@ -173,6 +173,13 @@ def must_pass_v(body, start, targets, via):
     return not (reach_v(body, [start], stop=set(via)) & set(targets))
 
 
+def precedes(body, bb, targets):
+    """every feasible path from the entry to a block of `targets` passes bb: dominance, or — when bb sits in an inlined helper whose Err /
+    Ok results merge again before the caller's `?` — the same thing decided with the variant-tracking reachability"""
+    targets = set(targets)
+    return all(body.dominates(bb, e) for e in targets) or must_pass_v(body, 0, targets, {bb})
+
+
 class Side:
     """what one target of a switch leads to"""
     def __init__(self, body, bb):
@@ -193,7 +200,7 @@ class Guard2:
         return bool(self.good) and bool(self.bad) and any(s.ok for s in self.good) and not any(s.ok for s in self.bad) and all(s.err for s in self.bad)
 
     def dominates_ok_exits(self):
-        return all(self.body.dominates(self.switch_bb, e) for e in self.body.strict_ok_exits())
+        return precedes(self.body, self.switch_bb, self.body.strict_ok_exits())
 
     def holds(self): return self.requires() and self.dominates_ok_exits()
 
@@ -472,7 +479,7 @@ def subset_guard(ctx, rule, body, a_need, b_need, what):
             gs = bool_guards(body, c.dst['l'], True)
             okg = [g for g in gs if g.requires()]
             every = must_pass_v(body, some_bb, {header}, {c.bb})
-            dom = all(body.dominates(header, e) for e in oks)
+            dom = precedes(body, header, oks)
             if okg and every and dom:
                 ctx.ok(rule, 'T-GUARD', body.site(c.bb), guard=what, shape='loop bb%d: ' % header + okg[0].describe()); return okg[0]
             seen.append('loop bb%d contains@bb%d: guard=%s every-item=%s dominates=%s' % (header, c.bb, [g.describe() for g in gs], every, dom))
@@ -828,7 +835,7 @@ def export_rules(ctx, name, keyty, qubo):
     mapcalls = [c for c in body.calls if c.bb in blocks and is_map(c)]
     from_item = lambda s: nextc in s.call_objs
     map_rooted = lambda o: rooted_in(body, o, lambda c: c in mapcalls)
-    ctx.check(all(body.dominates(header, e) for e in body.strict_ok_exits()), R + '/loop/dominates', 'T-MUSTCALL', body.name, 'term loop does not dominate the Ok-exit', body.site(nextc.bb))
+    ctx.check(precedes(body, header, body.strict_ok_exits()), R + '/loop/dominates', 'T-MUSTCALL', body.name, 'term loop does not dominate the Ok-exit', body.site(nextc.bb))
     # STAGED LOOPS (loop fission): the terms may reach the writer loop through a collection filled by an earlier loop over the terms
     # (`let terms = it.filter(..).map(..).collect::<..>(); for t in terms { .. }`).  A stage = (loop, calls that hand the item on).
     # Facts about a term (skip tests, emptiness of its ids, the key conversion and its error) may be established in any stage.
@@ -1062,7 +1069,7 @@ def export_rules(ctx, name, keyty, qubo):
         if not okc and pclass is not None and pclass[1] == 'nonempty':
             # the constant terms are the other component of the partition: its loop adds every item's coefficient to the offset
             for l2 in siblings:
-                if partition_class(ctx, body, l2)[1] != 'empty' or not all(body.dominates(l2[1], e) for e in body.strict_ok_exits()): continue
+                if partition_class(ctx, body, l2)[1] != 'empty' or not precedes(body, l2[1], body.strict_ok_exits()): continue
                 for bi in offset_adds(l2[4], l2[0]):
                     ctx.counters['cfg_paths'] += 1
                     if must_pass_v(body, l2[2], {l2[1]}, {bi}): okc.append((None, bi)); const_next = l2[0]
